@@ -270,6 +270,7 @@ def run_check(prop, tier, replay=None, label=None):
             # goroutines and must be explainable sequentially (a definition registered by one scanner is never lost to another)
             import check_conc
             d2 = check_conc.syncmap_phase(run, tier, workdir, binary, configs=check_conc.REG_CONFIGS[tier], what="definition registry")
+            check_conc.regstress_phase(run, tier, workdir, binary)
             if d2:
                 vlib.log("DRIFT: %d replayed registry schedule(s) behave differently from SyncMap.tla although no property failed" % d2)
                 drift += d2
